@@ -361,6 +361,21 @@ func (exp *SplitExp) wrapError(err error) error {
 	}
 }
 
+// enabledValue returns the expression a possibly run-time-disabled
+// expression has when it is enabled.  The source of a split determines
+// the dimensions of a map call; when the source is disabled the value
+// is null and the map is empty, but it is the enabled value which says
+// which node the dimensions come from.
+func enabledValue(exp Exp) Exp {
+	for {
+		if d, ok := exp.(*DisabledExp); ok {
+			exp = d.Value
+		} else {
+			return exp
+		}
+	}
+}
+
 func (exp *SplitExp) resolveRefs(self, siblings map[string]*ResolvedBinding,
 	lookup *TypeLookup) (Exp, error) {
 	v, err := exp.Value.resolveRefs(self, siblings, lookup)
@@ -378,14 +393,14 @@ func (exp *SplitExp) resolveRefs(self, siblings map[string]*ResolvedBinding,
 	case *RefExp:
 		re, err := s.resolveRefs(self, siblings, lookup)
 		if err == nil {
-			if rs, ok := re.(MapCallSource); ok {
+			if rs, ok := enabledValue(re).(MapCallSource); ok {
 				src = rs
 			}
 		}
 	case *BoundReference:
 		re, err := s.Exp.resolveRefs(self, siblings, lookup)
 		if err == nil {
-			switch rs := re.(type) {
+			switch rs := enabledValue(re).(type) {
 			case *RefExp:
 				src = &BoundReference{
 					Exp:  rs,
